@@ -42,6 +42,13 @@ CHECKS = {
             "thousands of configurations from the C19 grammar. Held on the configurations produced.",
             "type names with zero or several separators are executed but not judged; icontract evaluates on the real call.",
             "icontract postconditions (reference model) on the real functions over generated configurations"),
+    "C07": ("exploration", "3 C07",
+            "every unfold_search call in the process (wrapper with alias re-binding) is compared, as a set of uris, with an independent "
+            "model of the search syntax (alias expansion, ',' distribution, '**' completion to leaf types, all-types typing, narrowing, "
+            "filter application with the C04 rule) over generated and malformed searches; exceptions other than SpilException, duplicates, "
+            "untyped or query-carrying results are violations. Held on the executions produced.",
+            "R4 is a second implementation of the statement; input classes the statement leaves open are counted as unspecified and not judged.",
+            "runtime monitor on unfold_search + reference unfolding model over generated searches"),
 }
 
 NOT_YET = {}
